@@ -393,6 +393,28 @@ pub fn run(opts: &Opts) -> Report {
     rep.notes.push(format!("built-in name table: {} names, {}", names.len(), if from_source { "read from the repository's default_funcs.rs / default_macros.rs" } else { "translator_tie: unavailable (fallback list)" }));
     let idx: Vec<usize> = if opts.thorough { (0..all.len()).collect() } else { pool::quick_indices() };
     rep.notes.push(format!("boundary pool: {} values, {} used for built-in tuples in this tier", all.len(), idx.len()));
+    // arity 3: every triple over a mini pool (a number of each kind, strings that mean something to a built-in, null, a list)
+    let mini: Vec<usize> = {
+        let want = |v: &CelValue| match v {
+            CelValue::Int(0) | CelValue::Null => true,
+            CelValue::Float(f) => *f == 1.5,
+            CelValue::String(s) => ["°C", "kg", "a", "US/Pacific"].contains(&s.as_str()),
+            CelValue::List(l) => l.len() == 1,
+            _ => false,
+        };
+        let mut seen: Vec<String> = Vec::new();
+        (0..all.len()).filter(|i| want(&all[*i]) && { let k = crate::wire::show_val(&all[*i]); if seen.contains(&k) { false } else { seen.push(k); true } }).collect()
+    };
+    for name in names.iter() {
+        for &a in mini.iter() {
+            for &b in mini.iter() {
+                for &c in mini.iter() {
+                    jobs.push(single("builtin-arity3", format!("{}(x, y, z)", name), vec![("x".into(), a), ("y".into(), b), ("z".into(), c)]));
+                    jobs.push(single("builtin-arity3", format!("x.{}(y, z)", name), vec![("x".into(), a), ("y".into(), b), ("z".into(), c)]));
+                }
+            }
+        }
+    }
     for name in names.iter() {
         jobs.push(single("builtin-arity0", format!("{}()", name), vec![]));
         for &a in idx.iter() {
